@@ -108,6 +108,7 @@ def run(ck):
     _C01b.r6(ck, F, rid="C10.R17")
     as_field_rule(ck, F)
     field_key_rule(ck, F)
+    adaptor_siblings(ck, F)
     from rules import C02 as _C02l
     _C02l.lookup_entry_points(ck, rid="C10.R21", crates={"tracing"})
     # a visitor adaptor (Alt, Messages, VisitDelimited, ...) must hand every typed visit on to the visitor it wraps: a
@@ -401,6 +402,34 @@ def r2(ck, FX, body, fname, exp, rid="C10.R2"):
 
 
 # ------------------------------------------------------------------ R4
+def adaptor_siblings(ck, F, rid="C10.R20"):
+    """Sibling agreement inside one adaptor: what a Visit wrapper does around the forwarded call (VisitDelimited writes its
+    delimiter first) it does for every record_* method alike -- the bookkeeping cannot depend on the value's type."""
+    from rules.C09 import head
+    for imp in F.impls_of("tracing_core::field::Visit"):
+        st = imp["self_ty"]
+        if not st.startswith("tracing_subscriber::field::"):
+            continue
+        hd = head(st)
+        per = {}
+        for m, pth in imp["methods"].items():
+            b = F.body(pth)
+            if b is None or not m.startswith("record_"):
+                continue
+            per[m] = tuple(sorted({(t["callee"].get("path") or "").rsplit("::", 1)[-1] for bb, t in b.calls() if (t["callee"].get("path") or "").startswith(hd + "::")
+                                   and (t["callee"].get("path") or "").rsplit("::", 1)[-1] != m}))
+        if len(per) < 2:
+            continue
+        from collections import Counter
+        common, _ = Counter(per.values()).most_common(1)[0]
+        odd = {m: v for m, v in per.items() if v != common}
+        key = "%s does the same bookkeeping around every record_* method" % hd.rsplit("::", 1)[-1]
+        if odd:
+            ck.bad(rid, key, imp["span"], "the other methods call %s; %s" % (list(common), "; ".join("%s calls %s" % (m, list(v)) for m, v in sorted(odd.items()))))
+        else:
+            ck.ok(rid, key, detail=dict(methods=len(per), calls=list(common)))
+
+
 def _conjuncts(t):
     if isinstance(t, tuple) and t and t[0] == "bin" and t[1] in ("BitAnd", "And"):
         return _conjuncts(t[2]) + _conjuncts(t[3])
